@@ -1,6 +1,1256 @@
+/-
+  C04 — Aggregation results do not depend on merge order or grouping.
+
+  "Merging the same multiset of contributions in any order and any grouping yields the same count, min, max and
+   unique-value estimate, and the same sum and sum-of-squares up to floating-point rounding (exactly when all inputs are
+   integers of moderate size). The reported min (max) host is always a host that contributed the min (max) value, and the
+   max-count host is always one of the contributing hosts."
+  Quantifier: all multisets of counter/value/unique contributions with host tags, all permutations and all binary merge
+  trees, including unique sets large enough to trigger sketch thinning.
+
+  Models: SH.Model.Agg (ItemValue/ItemCounter.Merge, AddValueCounterHost, tsValues.merge), SH.Model.Unique (ChUnique).
+  Part 1: values and hosts, every binary merge tree with every stream of random draws (`Tree`).
+  Part 2: API rows (`TsTree`).
+  Part 3: the unique sketch: every program of inserts and merges ends in the canonical state of the set of inserted
+          hashes, for arbitrary parameters (size limit); `decide` witnesses on a toy instance show that the code before
+          the fix (`MergeV.rhsGood`, `ReadV.stale`, `SdV.exact`) does not.
+  Arithmetic is exact (`Int`): this is the "integers of moderate size" clause; floating-point rounding is not decided.
+-/
 import SH.Model.Agg
 import SH.Gen.C04
+import SH.Lemmas.UniqueTrie
 namespace SH.C04
-open SH.Agg SH.Unique
-theorem gen_params_match : SH.Gen.C04.maxSizeDegree = real.maxDeg ∧ SH.Gen.C04.initSizeDegree = real.initDeg ∧ SH.Gen.C04.maxSize = limit real := by decide
+open SH.Agg
+
+/-- the constants regenerated from /repo are the ones the theorems' `real` instance uses -/
+theorem gen_params_match : SH.Gen.C04.maxSizeDegree = Unique.real.maxDeg ∧ SH.Gen.C04.initSizeDegree = Unique.real.initDeg ∧
+    SH.Gen.C04.maxSize = Unique.limit Unique.real := by decide
+
+/-! ## Part 1 — ItemValue / ItemCounter -/
+
+/-- a merge program: any binary tree over contributions; every inner node carries the random draw it may consume -/
+inductive Tree where
+  | leaf (v : Value)
+  | node (d : Nat) (l r : Tree)
+
+def eval : Tree → Value
+  | .leaf v => v
+  | .node d l r => merge d (eval l) (eval r)
+
+def leaves : Tree → List Value
+  | .leaf v => [v]
+  | .node _ l r => leaves l ++ leaves r
+
+/-- a contribution: non-negative counter; an item without values carries zero sums -/
+def Wf (v : Value) : Prop := 0 ≤ v.cnt ∧ (v.set = false → v.sum = 0 ∧ v.sumsq = 0)
+
+theorem mergeCounter_vals (d : Nat) (s : Value) (c : Int) (h : Host) :
+    (mergeCounter d s c h).vmin = s.vmin ∧ (mergeCounter d s c h).vmax = s.vmax ∧
+    (mergeCounter d s c h).sum = s.sum ∧ (mergeCounter d s c h).sumsq = s.sumsq ∧
+    (mergeCounter d s c h).minHost = s.minHost ∧ (mergeCounter d s c h).maxHost = s.maxHost ∧
+    (mergeCounter d s c h).set = s.set := by
+  unfold mergeCounter
+  split
+  · simp
+  · split
+    · simp
+    · split
+      · simp
+      · split <;> simp
+
+theorem mergeCounter_cnt (d : Nat) (s : Value) (c : Int) (h : Host) (hs : 0 ≤ s.cnt) (hc : 0 ≤ c) :
+    (mergeCounter d s c h).cnt = s.cnt + c := by
+  unfold mergeCounter
+  split
+  · omega
+  · split
+    · simp; omega
+    · split
+      · simp
+      · split <;> simp
+
+theorem mergeValuePart_cnt (s o : Value) : (mergeValuePart s o).cnt = s.cnt ∧ (mergeValuePart s o).chost = s.chost := by
+  unfold mergeValuePart setMax setMin
+  split
+  · simp
+  · split <;> split <;> simp
+
+theorem merge_cnt (d : Nat) (s o : Value) (hs : 0 ≤ s.cnt) (ho : 0 ≤ o.cnt) : (merge d s o).cnt = s.cnt + o.cnt := by
+  unfold merge
+  rw [(mergeValuePart_cnt _ _).1, mergeCounter_cnt d s o.cnt o.chost hs ho]
+
+theorem mergeValuePart_set (s o : Value) : (mergeValuePart s o).set = (s.set || o.set) := by
+  unfold mergeValuePart setMax setMin
+  split
+  · rename_i h; simp at h; simp [h]
+  · rename_i h; simp at h; split <;> split <;> simp [h]
+
+theorem merge_set (d : Nat) (s o : Value) : (merge d s o).set = (s.set || o.set) := by
+  unfold merge
+  rw [mergeValuePart_set, (mergeCounter_vals d s o.cnt o.chost).2.2.2.2.2.2]
+
+theorem mergeValuePart_sum (s o : Value) (ho : o.set = false → o.sum = 0 ∧ o.sumsq = 0) :
+    (mergeValuePart s o).sum = s.sum + o.sum ∧ (mergeValuePart s o).sumsq = s.sumsq + o.sumsq := by
+  unfold mergeValuePart setMax setMin
+  split
+  · rename_i h; simp at h; simp [ho h]
+  · split <;> split <;> simp
+
+theorem merge_sum (d : Nat) (s o : Value) (ho : o.set = false → o.sum = 0 ∧ o.sumsq = 0) :
+    (merge d s o).sum = s.sum + o.sum ∧ (merge d s o).sumsq = s.sumsq + o.sumsq := by
+  unfold merge
+  have h := mergeCounter_vals d s o.cnt o.chost
+  have h2 := mergeValuePart_sum (mergeCounter d s o.cnt o.chost) o ho
+  rw [h2.1, h2.2, h.2.2.1, h.2.2.2.1]
+  exact ⟨rfl, rfl⟩
+
+theorem merge_wf (d : Nat) (s o : Value) (hs : Wf s) (ho : Wf o) : Wf (merge d s o) := by
+  refine ⟨?_, ?_⟩
+  · rw [merge_cnt d s o hs.1 ho.1]; have := hs.1; have := ho.1; omega
+  · intro h
+    rw [merge_set] at h
+    simp at h
+    have h1 := hs.2 h.1
+    have h2 := ho.2 h.2
+    have := merge_sum d s o ho.2
+    rw [this.1, this.2, h1.1, h1.2, h2.1, h2.2]
+    simp
+
+def cntSum (ls : List Value) : Int := (ls.map (·.cnt)).sum
+def sumSum (ls : List Value) : Int := (ls.map (·.sum)).sum
+def sqSum (ls : List Value) : Int := (ls.map (·.sumsq)).sum
+def anySet (ls : List Value) : Bool := ls.any (·.set)
+
+/-- count, sum, sum of squares and ValueSet of any merge tree are the sums over its leaves -/
+theorem eval_sums (t : Tree) (hw : ∀ l ∈ leaves t, Wf l) :
+    Wf (eval t) ∧ (eval t).cnt = cntSum (leaves t) ∧ (eval t).sum = sumSum (leaves t) ∧
+    (eval t).sumsq = sqSum (leaves t) ∧ (eval t).set = anySet (leaves t) := by
+  induction t with
+  | leaf v =>
+    simp [eval, leaves, cntSum, sumSum, sqSum, anySet]
+    exact hw v (by simp [leaves])
+  | node d l r ihl ihr =>
+    have hl := ihl (fun x hx => hw x (by simp [leaves, hx]))
+    have hr := ihr (fun x hx => hw x (by simp [leaves, hx]))
+    obtain ⟨wl, cl, sl, ql, bl⟩ := hl
+    obtain ⟨wr, cr, sr, qr, br⟩ := hr
+    refine ⟨merge_wf d _ _ wl wr, ?_, ?_, ?_, ?_⟩
+    · simp only [eval, leaves]; rw [merge_cnt d _ _ wl.1 wr.1, cl, cr]; simp [cntSum]
+    · simp only [eval, leaves]; rw [(merge_sum d _ _ wr.2).1, sl, sr]; simp [sumSum]
+    · simp only [eval, leaves]; rw [(merge_sum d _ _ wr.2).2, ql, qr]; simp [sqSum]
+    · simp only [eval, leaves]; rw [merge_set, bl, br]; simp [anySet]
+
+/-- one merge step, minimum side: the result keeps the receiver's (min, min host) or takes the operand's, and it is the smaller one -/
+theorem mergeValuePart_min (s o : Value) :
+    (o.set = false ∧ (mergeValuePart s o).vmin = s.vmin ∧ (mergeValuePart s o).minHost = s.minHost) ∨
+    (o.set = true ∧ s.set = true ∧ s.vmin ≤ o.vmin ∧ (mergeValuePart s o).vmin = s.vmin ∧ (mergeValuePart s o).minHost = s.minHost) ∨
+    (o.set = true ∧ (s.set = true → o.vmin < s.vmin) ∧ (mergeValuePart s o).vmin = o.vmin ∧ (mergeValuePart s o).minHost = o.minHost) := by
+  unfold mergeValuePart
+  by_cases ho : o.set = true
+  · by_cases hm : takesMin s o.vmin = true
+    · right; right
+      refine ⟨ho, ?_, ?_⟩
+      · intro hs; simp [takesMin, hs] at hm; exact hm
+      · simp [ho, hm, setMin, setMax]; split <;> simp
+    · right; left
+      have hm' : takesMin s o.vmin = false := by simpa using hm
+      have : s.set = true ∧ s.vmin ≤ o.vmin := by
+        simp [takesMin] at hm'; exact ⟨hm'.1, by omega⟩
+      refine ⟨ho, this.1, this.2, ?_⟩
+      simp [ho, hm', setMin, setMax]; split <;> simp
+  · left
+    have ho' : o.set = false := by simpa using ho
+    simp [ho']
+
+theorem mergeValuePart_max (s o : Value) :
+    (o.set = false ∧ (mergeValuePart s o).vmax = s.vmax ∧ (mergeValuePart s o).maxHost = s.maxHost) ∨
+    (o.set = true ∧ s.set = true ∧ o.vmax ≤ s.vmax ∧ (mergeValuePart s o).vmax = s.vmax ∧ (mergeValuePart s o).maxHost = s.maxHost) ∨
+    (o.set = true ∧ (s.set = true → s.vmax < o.vmax) ∧ (mergeValuePart s o).vmax = o.vmax ∧ (mergeValuePart s o).maxHost = o.maxHost) := by
+  unfold mergeValuePart
+  by_cases ho : o.set = true
+  · by_cases hm : takesMax s o.vmax = true
+    · right; right
+      refine ⟨ho, ?_, ?_⟩
+      · intro hs; simp [takesMax, hs] at hm; exact hm
+      · simp [ho, hm, setMin, setMax]
+    · right; left
+      have hm' : takesMax s o.vmax = false := by simpa using hm
+      have : s.set = true ∧ o.vmax ≤ s.vmax := by
+        simp [takesMax] at hm'; exact ⟨hm'.1, by omega⟩
+      refine ⟨ho, this.1, this.2, ?_⟩
+      simp [ho, hm', setMin, setMax]; split <;> simp
+  · left
+    have ho' : o.set = false := by simpa using ho
+    simp [ho']
+
+/-- "is the least value among the leaves that carry values, reported with the host of a leaf that attains it" -/
+def IsMin (ls : List Value) (m : Int) (h : Host) : Prop :=
+  (∀ l ∈ ls, l.set = true → m ≤ l.vmin) ∧ ∃ l ∈ ls, l.set = true ∧ l.vmin = m ∧ l.minHost = h
+
+def IsMax (ls : List Value) (m : Int) (h : Host) : Prop :=
+  (∀ l ∈ ls, l.set = true → l.vmax ≤ m) ∧ ∃ l ∈ ls, l.set = true ∧ l.vmax = m ∧ l.maxHost = h
+
+theorem eval_set (t : Tree) : (eval t).set = (leaves t).any (·.set) := by
+  induction t with
+  | leaf v => simp [eval, leaves]
+  | node d l r ihl ihr => simp [eval, leaves, merge_set, ihl, ihr]
+
+theorem eval_min (t : Tree) (hs : (eval t).set = true) : IsMin (leaves t) (eval t).vmin (eval t).minHost := by
+  induction t with
+  | leaf v =>
+    simp only [eval, leaves] at *
+    exact ⟨by intro l hl _; simp at hl; subst hl; exact Int.le_refl _, v, by simp, hs, rfl, rfl⟩
+  | node d l r ihl ihr =>
+    simp only [eval, leaves] at *
+    have hv := mergeCounter_vals d (eval l) (eval r).cnt (eval r).chost
+    have hm := mergeValuePart_min (mergeCounter d (eval l) (eval r).cnt (eval r).chost) (eval r)
+    rw [hv.1, hv.2.2.2.2.1, hv.2.2.2.2.2.2] at hm
+    have hset := merge_set d (eval l) (eval r)
+    unfold merge at hs hset ⊢
+    have hrs := eval_set r
+    have hls := eval_set l
+    rcases hm with ⟨ho, e1, e2⟩ | ⟨ho, hsl, hle, e1, e2⟩ | ⟨ho, hlt, e1, e2⟩
+    · -- operand carries no values
+      have hl : (eval l).set = true := by rw [hset, ho] at hs; simpa using hs
+      obtain ⟨a, l0, hl0, b⟩ := ihl hl
+      rw [e1, e2]
+      refine ⟨?_, l0, by simp [hl0], b⟩
+      intro x hx hxs
+      rcases List.mem_append.mp hx with h | h
+      · exact a x h hxs
+      · have : (leaves r).any (·.set) = true := List.any_eq_true.mpr ⟨x, h, hxs⟩
+        rw [← hrs, ho] at this; cases this
+    · obtain ⟨a, l0, hl0, b⟩ := ihl hsl
+      obtain ⟨a', _⟩ := ihr ho
+      rw [e1, e2]
+      refine ⟨?_, l0, by simp [hl0], b⟩
+      intro x hx hxs
+      rcases List.mem_append.mp hx with h | h
+      · exact a x h hxs
+      · exact Int.le_trans hle (a' x h hxs)
+    · obtain ⟨a', l0, hl0, b⟩ := ihr ho
+      rw [e1, e2]
+      refine ⟨?_, l0, by simp [hl0], b⟩
+      intro x hx hxs
+      rcases List.mem_append.mp hx with h | h
+      · have hl : (eval l).set = true := by
+          rw [hls]; exact List.any_eq_true.mpr ⟨x, h, hxs⟩
+        have := (ihl hl).1 x h hxs
+        have := hlt hl
+        omega
+      · exact a' x h hxs
+
+theorem eval_max (t : Tree) (hs : (eval t).set = true) : IsMax (leaves t) (eval t).vmax (eval t).maxHost := by
+  induction t with
+  | leaf v =>
+    simp only [eval, leaves] at *
+    exact ⟨by intro l hl _; simp at hl; subst hl; exact Int.le_refl _, v, by simp, hs, rfl, rfl⟩
+  | node d l r ihl ihr =>
+    simp only [eval, leaves] at *
+    have hv := mergeCounter_vals d (eval l) (eval r).cnt (eval r).chost
+    have hm := mergeValuePart_max (mergeCounter d (eval l) (eval r).cnt (eval r).chost) (eval r)
+    rw [hv.2.1, hv.2.2.2.2.2.1, hv.2.2.2.2.2.2] at hm
+    have hset := merge_set d (eval l) (eval r)
+    unfold merge at hs hset ⊢
+    have hrs := eval_set r
+    have hls := eval_set l
+    rcases hm with ⟨ho, e1, e2⟩ | ⟨ho, hsl, hle, e1, e2⟩ | ⟨ho, hlt, e1, e2⟩
+    · have hl : (eval l).set = true := by rw [hset, ho] at hs; simpa using hs
+      obtain ⟨a, l0, hl0, b⟩ := ihl hl
+      rw [e1, e2]
+      refine ⟨?_, l0, by simp [hl0], b⟩
+      intro x hx hxs
+      rcases List.mem_append.mp hx with h | h
+      · exact a x h hxs
+      · have : (leaves r).any (·.set) = true := List.any_eq_true.mpr ⟨x, h, hxs⟩
+        rw [← hrs, ho] at this; cases this
+    · obtain ⟨a, l0, hl0, b⟩ := ihl hsl
+      obtain ⟨a', _⟩ := ihr ho
+      rw [e1, e2]
+      refine ⟨?_, l0, by simp [hl0], b⟩
+      intro x hx hxs
+      rcases List.mem_append.mp hx with h | h
+      · exact a x h hxs
+      · exact Int.le_trans (a' x h hxs) hle
+    · obtain ⟨a', l0, hl0, b⟩ := ihr ho
+      rw [e1, e2]
+      refine ⟨?_, l0, by simp [hl0], b⟩
+      intro x hx hxs
+      rcases List.mem_append.mp hx with h | h
+      · have hl : (eval l).set = true := by
+          rw [hls]; exact List.any_eq_true.mpr ⟨x, h, hxs⟩
+        have := (ihl hl).1 x h hxs
+        have := hlt hl
+        omega
+      · exact a' x h hxs
+
+/-- one counter merge step: the host is the receiver's or the operand's; when both counters are positive so is the result -/
+theorem mergeCounter_host (d : Nat) (s : Value) (c : Int) (h : Host) :
+    ((mergeCounter d s c h).chost = s.chost ∧ (mergeCounter d s c h).cnt = s.cnt ∧ c ≤ 0) ∨
+    ((mergeCounter d s c h).chost = s.chost ∧ 0 < s.cnt ∧ 0 < c) ∨
+    ((mergeCounter d s c h).chost = h ∧ 0 < c) := by
+  unfold mergeCounter
+  split
+  · left; simp; omega
+  · split
+    · right; right; simp; omega
+    · split
+      · right; left; simp; omega
+      · split
+        · right; right; simp; omega
+        · right; left; simp; omega
+
+/-- the reported max-count host is the host of a leaf; if the total is positive, of a leaf with a positive counter -/
+theorem eval_chost (t : Tree) : ∃ l ∈ leaves t, l.chost = (eval t).chost ∧ (0 < (eval t).cnt → 0 < l.cnt) := by
+  induction t with
+  | leaf v => exact ⟨v, by simp [leaves], rfl, by simp [eval]⟩
+  | node d l r ihl ihr =>
+    simp only [eval, leaves, merge]
+    rw [(mergeValuePart_cnt _ _).1, (mergeValuePart_cnt _ _).2]
+    obtain ⟨a, ha, ea, pa⟩ := ihl
+    obtain ⟨b, hb, eb, pb⟩ := ihr
+    rcases mergeCounter_host d (eval l) (eval r).cnt (eval r).chost with ⟨e, ec, _⟩ | ⟨e, hp, _⟩ | ⟨e, hp⟩
+    · exact ⟨a, by simp [ha], by rw [e, ea], by rw [ec]; exact pa⟩
+    · exact ⟨a, by simp [ha], by rw [e, ea], fun _ => pa hp⟩
+    · exact ⟨b, by simp [hb], by rw [e, eb], fun _ => pb hp⟩
+
+
+/-! ### Part 1, headline theorems -/
+
+theorem perm_sum (f : Value → Int) {a b : List Value} (h : a.Perm b) : (a.map f).sum = (b.map f).sum := by
+  induction h with
+  | nil => rfl
+  | cons x _ ih => simp [ih]
+  | swap x y l => simp; omega
+  | trans _ _ ih1 ih2 => omega
+
+theorem perm_any {a b : List Value} (h : a.Perm b) : a.any (·.set) = b.any (·.set) := by
+  rw [Bool.eq_iff_iff]
+  simp only [List.any_eq_true]
+  constructor
+  · rintro ⟨x, hx, p⟩; exact ⟨x, h.mem_iff.mp hx, p⟩
+  · rintro ⟨x, hx, p⟩; exact ⟨x, h.mem_iff.mpr hx, p⟩
+
+theorem isMin_unique {a b : List Value} (h : a.Perm b) {m m' : Int} {x y : Host} (h1 : IsMin a m x) (h2 : IsMin b m' y) : m = m' := by
+  obtain ⟨lo1, l1, hl1, s1, e1, _⟩ := h1
+  obtain ⟨lo2, l2, hl2, s2, e2, _⟩ := h2
+  have := lo1 l2 (h.mem_iff.mpr hl2) s2
+  have := lo2 l1 (h.mem_iff.mp hl1) s1
+  omega
+
+theorem isMax_unique {a b : List Value} (h : a.Perm b) {m m' : Int} {x y : Host} (h1 : IsMax a m x) (h2 : IsMax b m' y) : m = m' := by
+  obtain ⟨lo1, l1, hl1, s1, e1, _⟩ := h1
+  obtain ⟨lo2, l2, hl2, s2, e2, _⟩ := h2
+  have := lo1 l2 (h.mem_iff.mpr hl2) s2
+  have := lo2 l1 (h.mem_iff.mp hl1) s1
+  omega
+
+/-- C04, values: "Merging the same multiset of contributions in any order and any grouping yields the same count, min, max
+    … and the same sum and sum-of-squares (exactly when all inputs are integers of moderate size)".
+    Any two merge trees (any shapes, any random draws) whose leaves are the same multiset agree. -/
+theorem value_order_independent (t u : Tree) (hp : (leaves t).Perm (leaves u)) (hw : ∀ l ∈ leaves t, Wf l) :
+    (eval t).cnt = (eval u).cnt ∧ (eval t).sum = (eval u).sum ∧ (eval t).sumsq = (eval u).sumsq ∧
+    (eval t).set = (eval u).set ∧
+    ((eval t).set = true → (eval t).vmin = (eval u).vmin ∧ (eval t).vmax = (eval u).vmax) := by
+  have hw' : ∀ l ∈ leaves u, Wf l := fun l hl => hw l (hp.mem_iff.mpr hl)
+  obtain ⟨_, c1, s1, q1, b1⟩ := eval_sums t hw
+  obtain ⟨_, c2, s2, q2, b2⟩ := eval_sums u hw'
+  have hset : (eval t).set = (eval u).set := by rw [b1, b2]; exact perm_any hp
+  refine ⟨?_, ?_, ?_, hset, ?_⟩
+  · rw [c1, c2]; exact perm_sum (·.cnt) hp
+  · rw [s1, s2]; exact perm_sum (·.sum) hp
+  · rw [q1, q2]; exact perm_sum (·.sumsq) hp
+  · intro h
+    have h' : (eval u).set = true := by rw [← hset]; exact h
+    exact ⟨isMin_unique hp (eval_min t h) (eval_min u h'), isMax_unique hp (eval_max t h) (eval_max u h')⟩
+
+/-- C04: "The reported min host is always a host that contributed the min value": the reported minimum is the least
+    minimum over the leaves that carry values and the reported host is the min host of a leaf attaining it. -/
+theorem min_host_contributed (t : Tree) (hs : (eval t).set = true) :
+    (∀ l ∈ leaves t, l.set = true → (eval t).vmin ≤ l.vmin) ∧
+    ∃ l ∈ leaves t, l.set = true ∧ l.vmin = (eval t).vmin ∧ l.minHost = (eval t).minHost := eval_min t hs
+
+theorem max_host_contributed (t : Tree) (hs : (eval t).set = true) :
+    (∀ l ∈ leaves t, l.set = true → l.vmax ≤ (eval t).vmax) ∧
+    ∃ l ∈ leaves t, l.set = true ∧ l.vmax = (eval t).vmax ∧ l.maxHost = (eval t).maxHost := eval_max t hs
+
+/-- C04: "the max-count host is always one of the contributing hosts" — for every stream of random draws -/
+theorem maxcount_host_contributed (t : Tree) :
+    ∃ l ∈ leaves t, l.chost = (eval t).chost ∧ (0 < (eval t).cnt → 0 < l.cnt) := eval_chost t
+
+/-- the two copies of the counter-host branches in the Go source agree -/
+theorem addCounterHost_eq (d : Nat) (s : Value) (c : Int) (h : Host) : addCounterHost d s c h = mergeCounter d s c h := by
+  unfold addCounterHost mergeCounter
+  split
+  · rfl
+  · split
+    · rfl
+    · split
+      · rfl
+      · split <;> rfl
+
+/-- adding one event to an accumulator is merging the one-event item: streams of events are merge trees -/
+theorem add_eq_merge (d : Nat) (s : Value) (v c : Int) (h : Host) :
+    addValueCounterHost d s v c h = merge d s (simpleValue v c h) := by
+  unfold addValueCounterHost merge
+  rw [addCounterHost_eq]
+  simp [simpleValue, simpleCounter, addOnlyValue, mergeValuePart, zero, setMin, setMax, takesMin, takesMax]
+
+/-- simple items are contributions in the sense of `Wf` -/
+theorem simpleValue_wf (v c : Int) (h : Host) (hc : 0 ≤ c) : Wf (simpleValue v c h) := by
+  refine ⟨?_, ?_⟩
+  · simp [simpleValue, simpleCounter, addOnlyValue, zero, setMin, setMax]; split <;> split <;> simpa using hc
+  · intro hh; simp [simpleValue, simpleCounter, addOnlyValue, zero, setMin, setMax] at hh
+
+theorem simpleCounter_wf (c : Int) (h : Host) (hc : 0 ≤ c) : Wf (simpleCounter c h) := by
+  refine ⟨by simpa [simpleCounter, zero] using hc, ?_⟩
+  intro _; simp [simpleCounter, zero]
+
+/-- non-vacuity: two groupings with different draws of three contributions (two tie for the minimum) -/
+def w1 : Value := simpleValue 5 8 1
+def w2 : Value := simpleValue 5 4 2
+def w3 : Value := simpleValue (-3) 12 3
+example : (eval (.node 0 (.node 7 (.leaf w1) (.leaf w2)) (.leaf w3))).cnt = 24 ∧
+    (eval (.node 0 (.leaf w3) (.node 0 (.leaf w2) (.leaf w1)))).cnt = 24 ∧
+    (eval (.node 0 (.node 7 (.leaf w1) (.leaf w2)) (.leaf w3))).chost = 2 ∧
+    (eval (.node 0 (.leaf w3) (.node 0 (.leaf w2) (.leaf w1)))).chost = 3 ∧
+    (eval (.node 0 (.leaf w3) (.node 0 (.leaf w2) (.leaf w1)))).minHost = 3 := by decide
+example : ∀ l ∈ leaves (.node 0 (.node 7 (.leaf w1) (.leaf w2)) (.leaf w3)), Wf l := by
+  intro l hl
+  simp [leaves] at hl
+  rcases hl with h | h | h <;> subst h <;> exact simpleValue_wf _ _ _ (by decide)
+
+/-- why `Wf` asks for non-negative counters: ItemCounter.Merge ignores a non-positive operand and overwrites a non-positive
+    receiver, so with negative counters (never produced by ingestion) the result depends on the order -/
+example : (merge 0 (simpleCounter (-4) 1) (simpleCounter (-8) 2)).cnt ≠ (merge 0 (simpleCounter (-8) 2) (simpleCounter (-4) 1)).cnt := by decide
+
+/-! ## Part 2 — API rows (tsValues.merge) -/
+
+inductive TsTree where
+  | leaf (r : Ts)
+  | node (l r : TsTree)
+
+def tsEval (mv : Unique.MergeV) (P : Unique.Params) : TsTree → Ts
+  | .leaf r => r
+  | .node l r => tsMerge mv P (tsEval mv P l) (tsEval mv P r)
+
+def tsLeaves : TsTree → List Ts
+  | .leaf r => [r]
+  | .node l r => tsLeaves l ++ tsLeaves r
+
+def tsum (f : Ts → Int) (ls : List Ts) : Int := (ls.map f).sum
+
+theorem ts_sums (mv : Unique.MergeV) (P : Unique.Params) (t : TsTree) :
+    (tsEval mv P t).sum = tsum (·.sum) (tsLeaves t) ∧ (tsEval mv P t).count = tsum (·.count) (tsLeaves t) ∧
+    (tsEval mv P t).sumsq = tsum (·.sumsq) (tsLeaves t) ∧ (tsEval mv P t).card = tsum (·.card) (tsLeaves t) := by
+  induction t with
+  | leaf r => simp [tsEval, tsLeaves, tsum]
+  | node l r ihl ihr =>
+    obtain ⟨a1, a2, a3, a4⟩ := ihl
+    obtain ⟨b1, b2, b3, b4⟩ := ihr
+    simp only [tsEval, tsLeaves, tsMerge, tsum, List.map_append, List.sum_append] at *
+    exact ⟨by rw [a1, b1], by rw [a2, b2], by rw [a3, b3], by rw [a4, b4]⟩
+
+/-- `m` is the least (`lt = (· < ·)`) / greatest value of `f` over the rows and `w` is a row attaining it -/
+def Extremal (le : Int → Int → Prop) (f : Ts → Int) (ls : List Ts) (m : Int) : Prop :=
+  (∀ l ∈ ls, le m (f l)) ∧ ∃ l ∈ ls, f l = m
+
+theorem ts_min (mv : Unique.MergeV) (P : Unique.Params) (t : TsTree) :
+    Extremal (· ≤ ·) (·.min) (tsLeaves t) (tsEval mv P t).min := by
+  induction t with
+  | leaf r => exact ⟨by intro l hl; simp [tsLeaves] at hl; subst hl; exact Int.le_refl _, r, by simp [tsLeaves], rfl⟩
+  | node l r ihl ihr =>
+    obtain ⟨la, l0, hl0, le0⟩ := ihl
+    obtain ⟨ra, r0, hr0, re0⟩ := ihr
+    simp only [tsEval, tsLeaves, tsMerge]
+    split
+    · rename_i hlt
+      refine ⟨?_, r0, by simp [hr0], re0⟩
+      intro x hx
+      rcases List.mem_append.mp hx with h | h
+      · have := la x h; simp only at this ⊢; omega
+      · exact ra x h
+    · rename_i hlt
+      refine ⟨?_, l0, by simp [hl0], le0⟩
+      intro x hx
+      rcases List.mem_append.mp hx with h | h
+      · exact la x h
+      · have := ra x h; simp only at this ⊢; omega
+
+theorem ts_max (mv : Unique.MergeV) (P : Unique.Params) (t : TsTree) :
+    Extremal (· ≥ ·) (·.max) (tsLeaves t) (tsEval mv P t).max := by
+  induction t with
+  | leaf r => exact ⟨by intro l hl; simp [tsLeaves] at hl; subst hl; exact Int.le_refl _, r, by simp [tsLeaves], rfl⟩
+  | node l r ihl ihr =>
+    obtain ⟨la, l0, hl0, le0⟩ := ihl
+    obtain ⟨ra, r0, hr0, re0⟩ := ihr
+    simp only [tsEval, tsLeaves, tsMerge]
+    split
+    · rename_i hlt
+      refine ⟨?_, r0, by simp [hr0], re0⟩
+      intro x hx
+      rcases List.mem_append.mp hx with h | h
+      · have := la x h; simp only at this ⊢; omega
+      · exact ra x h
+    · rename_i hlt
+      refine ⟨?_, l0, by simp [hl0], le0⟩
+      intro x hx
+      rcases List.mem_append.mp hx with h | h
+      · exact la x h
+      · have := ra x h; simp only at this ⊢; omega
+
+/-- the int32 min host of a merged API row is the min host of a row, and its value is the least one -/
+theorem ts_min_host (mv : Unique.MergeV) (P : Unique.Params) (t : TsTree) :
+    (∀ l ∈ tsLeaves t, (tsEval mv P t).minHost.val ≤ l.minHost.val) ∧ ∃ l ∈ tsLeaves t, l.minHost = (tsEval mv P t).minHost := by
+  induction t with
+  | leaf r => exact ⟨by intro l hl; simp [tsLeaves] at hl; subst hl; exact Int.le_refl _, r, by simp [tsLeaves], rfl⟩
+  | node l r ihl ihr =>
+    obtain ⟨la, l0, hl0, le0⟩ := ihl
+    obtain ⟨ra, r0, hr0, re0⟩ := ihr
+    simp only [tsEval, tsLeaves, tsMerge, argMin]
+    split
+    · refine ⟨?_, r0, by simp [hr0], re0⟩
+      intro x hx
+      rcases List.mem_append.mp hx with h | h
+      · have := la x h; omega
+      · exact ra x h
+    · refine ⟨?_, l0, by simp [hl0], le0⟩
+      intro x hx
+      rcases List.mem_append.mp hx with h | h
+      · exact la x h
+      · have := ra x h; omega
+
+theorem ts_max_host (mv : Unique.MergeV) (P : Unique.Params) (t : TsTree) :
+    (∀ l ∈ tsLeaves t, l.maxHost.val ≤ (tsEval mv P t).maxHost.val) ∧ ∃ l ∈ tsLeaves t, l.maxHost = (tsEval mv P t).maxHost := by
+  induction t with
+  | leaf r => exact ⟨by intro l hl; simp [tsLeaves] at hl; subst hl; exact Int.le_refl _, r, by simp [tsLeaves], rfl⟩
+  | node l r ihl ihr =>
+    obtain ⟨la, l0, hl0, le0⟩ := ihl
+    obtain ⟨ra, r0, hr0, re0⟩ := ihr
+    simp only [tsEval, tsLeaves, tsMerge, argMax]
+    split
+    · refine ⟨?_, r0, by simp [hr0], re0⟩
+      intro x hx
+      rcases List.mem_append.mp hx with h | h
+      · have := la x h; omega
+      · exact ra x h
+    · refine ⟨?_, l0, by simp [hl0], le0⟩
+      intro x hx
+      rcases List.mem_append.mp hx with h | h
+      · exact la x h
+      · have := ra x h; omega
+
+/-- the string min host, when every row carries a host (an empty receiver takes the operand whatever its value) -/
+theorem ts_min_host_str (mv : Unique.MergeV) (P : Unique.Params) (t : TsTree) (hne : ∀ l ∈ tsLeaves t, l.minHostStr.arg ≠ 0) :
+    (tsEval mv P t).minHostStr.arg ≠ 0 ∧
+    (∀ l ∈ tsLeaves t, (tsEval mv P t).minHostStr.val ≤ l.minHostStr.val) ∧ ∃ l ∈ tsLeaves t, l.minHostStr = (tsEval mv P t).minHostStr := by
+  induction t with
+  | leaf r => exact ⟨hne r (by simp [tsLeaves]), by intro l hl; simp [tsLeaves] at hl; subst hl; exact Int.le_refl _, r, by simp [tsLeaves], rfl⟩
+  | node l r ihl ihr =>
+    obtain ⟨ln, la, l0, hl0, le0⟩ := ihl (fun x hx => hne x (by simp [tsLeaves, hx]))
+    obtain ⟨rn, ra, r0, hr0, re0⟩ := ihr (fun x hx => hne x (by simp [tsLeaves, hx]))
+    simp only [tsEval, tsLeaves, tsMerge, argMinStr]
+    rw [if_neg ln]
+    split
+    · refine ⟨rn, ?_, r0, by simp [hr0], re0⟩
+      intro x hx
+      rcases List.mem_append.mp hx with h | h
+      · have := la x h; omega
+      · exact ra x h
+    · refine ⟨ln, ?_, l0, by simp [hl0], le0⟩
+      intro x hx
+      rcases List.mem_append.mp hx with h | h
+      · exact la x h
+      · have := ra x h; omega
+
+theorem perm_tsum (f : Ts → Int) {a b : List Ts} (h : a.Perm b) : tsum f a = tsum f b := by
+  unfold tsum
+  induction h with
+  | nil => rfl
+  | cons x _ ih => simp [ih]
+  | swap x y l => simp; omega
+  | trans _ _ ih1 ih2 => omega
+
+/-- C04, API rows: any two merge trees over the same multiset of rows agree on min, max, sum, count, sum of squares,
+    cardinality and on the value of the min/max host -/
+theorem ts_order_independent (mv : Unique.MergeV) (P : Unique.Params) (t u : TsTree) (hp : (tsLeaves t).Perm (tsLeaves u)) :
+    (tsEval mv P t).sum = (tsEval mv P u).sum ∧ (tsEval mv P t).count = (tsEval mv P u).count ∧
+    (tsEval mv P t).sumsq = (tsEval mv P u).sumsq ∧ (tsEval mv P t).card = (tsEval mv P u).card ∧
+    (tsEval mv P t).min = (tsEval mv P u).min ∧ (tsEval mv P t).max = (tsEval mv P u).max ∧
+    (tsEval mv P t).minHost.val = (tsEval mv P u).minHost.val ∧ (tsEval mv P t).maxHost.val = (tsEval mv P u).maxHost.val := by
+  obtain ⟨a1, a2, a3, a4⟩ := ts_sums mv P t
+  obtain ⟨b1, b2, b3, b4⟩ := ts_sums mv P u
+  refine ⟨by rw [a1, b1]; exact perm_tsum _ hp, by rw [a2, b2]; exact perm_tsum _ hp,
+          by rw [a3, b3]; exact perm_tsum _ hp, by rw [a4, b4]; exact perm_tsum _ hp, ?_, ?_, ?_, ?_⟩
+  · obtain ⟨l1, x, hx, ex⟩ := ts_min mv P t
+    obtain ⟨l2, y, hy, ey⟩ := ts_min mv P u
+    have := l1 y (hp.mem_iff.mpr hy); have := l2 x (hp.mem_iff.mp hx); simp only at *; omega
+  · obtain ⟨l1, x, hx, ex⟩ := ts_max mv P t
+    obtain ⟨l2, y, hy, ey⟩ := ts_max mv P u
+    have := l1 y (hp.mem_iff.mpr hy); have := l2 x (hp.mem_iff.mp hx); simp only at *; omega
+  · obtain ⟨l1, x, hx, ex⟩ := ts_min_host mv P t
+    obtain ⟨l2, y, hy, ey⟩ := ts_min_host mv P u
+    have := l1 y (hp.mem_iff.mpr hy); have := l2 x (hp.mem_iff.mp hx); rw [ey] at *; rw [ex] at *; omega
+  · obtain ⟨l1, x, hx, ex⟩ := ts_max_host mv P t
+    obtain ⟨l2, y, hy, ey⟩ := ts_max_host mv P u
+    have := l1 y (hp.mem_iff.mpr hy); have := l2 x (hp.mem_iff.mp hx); rw [ey] at *; rw [ex] at *; omega
+
+/-! ## Part 3 — the unique sketch (ChUnique)
+
+  `keys`/`fil` and the trie lemmas are in SH.Lemmas.UniqueTrie. `Good P s U W`: the sketch `s` holds exactly the values of
+  `U` (everything it has seen) that are divisible by 2^skipDegree, itemsCount is their number, skipDegree is not larger than
+  the universe `W ⊇ U` forces (every smaller degree leaves more than `limit` values of `W`), and the table degree is in range.
+  All theorems are for arbitrary parameters `P` (hash width, size limit 2^(maxDeg-1), initial degree).
+-/
+open SH.Unique
+
+def abs (P : Params) (s : Sk) : Finset ℕ := keys P.bits s.items
+
+/-- the part of the invariant that does not mention the table degree -/
+structure Core (P : Params) (s : Sk) (U W : Finset ℕ) : Prop where
+  alloc : s.alloc = true
+  cnt : s.cnt = (abs P s).card
+  items : abs P s = fil s.k U
+  sub : U ⊆ W
+  bound : ∀ x ∈ W, x < 2 ^ P.bits
+  minimal : ∀ j < s.k, limit P < (fil j W).card
+
+/-- `s` holds exactly the values of `U` divisible by 2^skipDegree, skipDegree is not larger than the whole universe `W`
+    forces, and the table degree is in range -/
+structure Good (P : Params) (s : Sk) (U W : Finset ℕ) : Prop extends Core P s U W where
+  sd1 : 1 ≤ s.sd
+  sdmax : s.sd ≤ P.maxDeg
+  fill : s.cnt ≤ maxFill s
+
+theorem fil_mono (k : Nat) {U W : Finset ℕ} (h : U ⊆ W) : (fil k U).card ≤ (fil k W).card :=
+  Finset.card_le_card (Finset.filter_subset_filter _ h)
+
+theorem fil_fil_succ (k : Nat) (U : Finset ℕ) : fil (k + 1) (fil k U) = fil (k + 1) U := by
+  ext y
+  simp only [mem_fil]
+  constructor
+  · rintro ⟨⟨a, _⟩, c⟩; exact ⟨a, c⟩
+  · rintro ⟨a, c⟩
+    refine ⟨⟨a, ?_⟩, c⟩
+    have : 2 ^ k ∣ 2 ^ (k + 1) := ⟨2, by rw [Nat.pow_succ]⟩
+    have h2 := Nat.mod_mod_of_dvd y this
+    rw [c] at h2; simpa using h2.symm
+
+theorem fil_fil_le {k k' : Nat} (h : k ≤ k') (U : Finset ℕ) : fil k' (fil k U) = fil k' U := by
+  ext y
+  simp only [mem_fil]
+  constructor
+  · rintro ⟨⟨a, _⟩, c⟩; exact ⟨a, c⟩
+  · rintro ⟨a, c⟩
+    refine ⟨⟨a, ?_⟩, c⟩
+    have : 2 ^ k ∣ 2 ^ k' := Nat.pow_dvd_pow 2 h
+    have h2 := Nat.mod_mod_of_dvd y this
+    rw [c] at h2; simpa using h2.symm
+
+/-- at skipDegree ≥ bits only the value 0 survives -/
+theorem fil_big (P : Params) (k : Nat) (hk : P.bits ≤ k) (U : Finset ℕ) (hb : ∀ x ∈ U, x < 2 ^ P.bits) : (fil k U).card ≤ 1 := by
+  rw [Finset.card_le_one]
+  intro a ha b hb'
+  rw [mem_fil] at ha hb'
+  have hp : 2 ^ P.bits ≤ 2 ^ k := Nat.pow_le_pow_right (by omega) hk
+  have h1 := hb a ha.1
+  have h2 := hb b hb'.1
+  have ea : a % 2 ^ k = a := Nat.mod_eq_of_lt (by omega)
+  have eb : b % 2 ^ k = b := Nat.mod_eq_of_lt (by omega)
+  omega
+
+theorem limit_pos (P : Params) : 1 ≤ limit P := Nat.one_le_two_pow
+
+/-- rehash after raising skipDegree -/
+theorem rehash_core (P : Params) (s : Sk) (U W : Finset ℕ) (k' : Nat) (h : Core P s U W) (hk : s.k ≤ k')
+    (hm : ∀ j < k', limit P < (fil j W).card) :
+    Core P (rehash P { s with k := k' }) U W ∧ (rehash P { s with k := k' }).cnt ≤ s.cnt ∧
+    (rehash P { s with k := k' }).sd = s.sd ∧ (rehash P { s with k := k' }).k = k' := by
+  have habs : abs P (rehash P { s with k := k' }) = fil k' (abs P s) := by
+    simp [abs, rehash, keys_thin]
+  have hsz : (s.items.thin P.bits k').size P.bits ≤ s.items.size P.bits := by
+    rw [size_eq, size_eq, keys_thin]; exact Finset.card_le_card (Finset.filter_subset _ _)
+  have hc : (rehash P { s with k := k' }).cnt = (fil k' (abs P s)).card := by
+    have h1 : s.cnt = s.items.size P.bits := by rw [h.cnt, size_eq]; rfl
+    have h2 : (fil k' (abs P s)).card = (s.items.thin P.bits k').size P.bits := by rw [size_eq, keys_thin]; rfl
+    simp only [rehash]; rw [h2]; omega
+  refine ⟨⟨h.alloc, ?_, ?_, h.sub, h.bound, hm⟩, ?_, by simp [rehash], by simp [rehash]⟩
+  · rw [hc, habs]
+  · rw [habs, h.items]; exact fil_fil_le hk U
+  · rw [hc, h.cnt]; exact Finset.card_le_card (Finset.filter_subset _ _)
+
+/-- the thinning loop: ends within the fuel with at most `limit` values, skipDegree stays minimal for `W` -/
+theorem thinLoop_core (P : Params) : ∀ (f : Nat) (s : Sk) (U W : Finset ℕ), Core P s U W → P.bits + 1 ≤ f + s.k →
+    Core P (thinLoop P f s) U W ∧ (thinLoop P f s).cnt ≤ limit P ∧ (thinLoop P f s).sd = s.sd := by
+  intro f
+  induction f with
+  | zero =>
+    intro s U W h hf
+    simp only [thinLoop]
+    refine ⟨h, ?_, trivial⟩
+    rw [h.cnt, h.items]
+    have := fil_big P s.k (by omega) U (fun x hx => h.bound x (h.sub hx))
+    have := limit_pos P
+    omega
+  | succ f ih =>
+    intro s U W h hf
+    simp only [thinLoop]
+    split
+    · rename_i hov
+      simp only [overLimit, decide_eq_true_eq] at hov
+      have hlt : s.k < P.bits := by
+        by_contra hge
+        have := fil_big P s.k (by omega) U (fun x hx => h.bound x (h.sub hx))
+        rw [← h.items, ← h.cnt] at this
+        have := limit_pos P
+        omega
+      have hm : ∀ j < s.k + 1, limit P < (fil j W).card := by
+        intro j hj
+        by_cases hjk : j < s.k
+        · exact h.minimal j hjk
+        · have : j = s.k := by omega
+          subst this
+          have := fil_mono s.k h.sub
+          rw [← h.items, ← h.cnt] at this
+          omega
+      obtain ⟨c, _, esd, ek⟩ := rehash_core P s U W (s.k + 1) h (by omega) hm
+      obtain ⟨c2, l2, sd2⟩ := ih _ U W c (by rw [ek]; omega)
+      exact ⟨c2, l2, by rw [sd2, esd]⟩
+    · rename_i hov
+      simp only [overLimit, decide_eq_true_eq] at hov
+      exact ⟨h, by omega, rfl⟩
+
+/-- shrinkIfNeed after one insertion into a Good state -/
+theorem shrink_good (P : Params) (s : Sk) (U W : Finset ℕ) (h : Core P s U W) (h1 : 1 ≤ s.sd) (hmax : s.sd ≤ P.maxDeg)
+    (hfill : s.cnt ≤ maxFill s + 1) : Good P (shrinkIfNeed P s) U W := by
+  have hpow : 2 ^ (s.sd - 1) ≤ 2 ^ (P.maxDeg - 1) := Nat.pow_le_pow_right (by omega) (by omega)
+  unfold shrinkIfNeed
+  split
+  · rename_i hf
+    simp only [fits, decide_eq_true_eq] at hf
+    exact { toCore := h, sd1 := h1, sdmax := hmax, fill := hf }
+  · rename_i hf
+    simp only [fits, decide_eq_true_eq] at hf
+    split
+    · rename_i hov
+      simp only [overLimit, decide_eq_true_eq] at hov
+      obtain ⟨c, l, esd⟩ := thinLoop_core P (P.bits + 1) s U W h (by omega)
+      refine { toCore := c, sd1 := by rw [esd]; exact h1, sdmax := by rw [esd]; exact hmax, fill := ?_ }
+      simp only [maxFill, limit] at *
+      rw [esd]; omega
+    · rename_i hov
+      simp only [overLimit, decide_eq_true_eq] at hov
+      have hlt : s.sd - 1 < P.maxDeg - 1 := by
+        by_contra hge
+        have : 2 ^ (P.maxDeg - 1) ≤ 2 ^ (s.sd - 1) := Nat.pow_le_pow_right (by omega) (by omega)
+        simp only [maxFill, limit] at *
+        omega
+      refine { toCore := ⟨h.alloc, h.cnt, h.items, h.sub, h.bound, h.minimal⟩, sd1 := by simp; , sdmax := by simp; omega, fill := ?_ }
+      simp only [maxFill] at *
+      have e : s.sd + 1 - 1 = (s.sd - 1) + 1 := by omega
+      rw [e, Nat.pow_succ]
+      have : 1 ≤ 2 ^ (s.sd - 1) := Nat.one_le_two_pow
+      omega
+
+theorem insertImpl_core (P : Params) (s : Sk) (U W : Finset ℕ) (x : Nat) (h : Core P s U W) (hx : x ∈ W)
+    (hg : x % 2 ^ s.k = 0) :
+    Core P (insertImpl P s x) (insert x U) W ∧ (insertImpl P s x).cnt ≤ s.cnt + 1 ∧ (insertImpl P s x).sd = s.sd := by
+  have hxb := h.bound x hx
+  have hsub : insert x U ⊆ W := Finset.insert_subset hx h.sub
+  have hfil : fil s.k (insert x U) = insert x (fil s.k U) := by
+    ext y; simp only [mem_fil, Finset.mem_insert]
+    constructor
+    · rintro ⟨rfl | a, b⟩
+      · left; rfl
+      · right; exact ⟨a, b⟩
+    · rintro (rfl | ⟨a, b⟩)
+      · exact ⟨Or.inl rfl, hg⟩
+      · exact ⟨Or.inr a, b⟩
+  unfold insertImpl
+  split
+  · rename_i hh
+    simp only [has] at hh
+    rw [mem_iff _ _ _ hxb] at hh
+    have hin : x ∈ fil s.k U := by rw [← h.items]; exact hh
+    refine ⟨⟨h.alloc, h.cnt, ?_, hsub, h.bound, h.minimal⟩, by omega, rfl⟩
+    rw [hfil, Finset.insert_eq_of_mem hin]; exact h.items
+  · rename_i hh
+    simp only [has] at hh
+    have hnot : x ∉ abs P s := by
+      intro hc; apply hh; rw [mem_iff _ _ _ hxb]; exact hc
+    have habs : abs P { s with items := s.items.insert P.bits x, cnt := s.cnt + 1 } = insert x (abs P s) := by
+      simp only [abs]; exact keys_insert _ _ _ hxb
+    refine ⟨⟨h.alloc, ?_, ?_, hsub, h.bound, h.minimal⟩, by simp, rfl⟩
+    · rw [habs, Finset.card_insert_of_notMem hnot, ← h.cnt]
+    · rw [habs, hfil, h.items]
+
+/-- one insertHash step keeps the invariant, the universe of seen values grows by `x` -/
+theorem insertHash_good (P : Params) (s : Sk) (U W : Finset ℕ) (x : Nat) (h : Good P s U W) (hx : x ∈ W) :
+    Good P (insertHash P s x) (insert x U) W := by
+  unfold insertHash
+  split
+  · rename_i hg
+    simp only [good, beq_iff_eq] at hg
+    obtain ⟨c, l, esd⟩ := insertImpl_core P s U W x h.toCore hx hg
+    apply shrink_good P _ _ _ c
+    · rw [esd]; exact h.sd1
+    · rw [esd]; exact h.sdmax
+    · have := h.fill; simp only [maxFill] at *; rw [esd]; omega
+  · rename_i hg
+    simp only [good, beq_iff_eq] at hg
+    refine { toCore := ⟨h.alloc, h.cnt, ?_, Finset.insert_subset hx h.sub, h.bound, h.minimal⟩, sd1 := h.sd1, sdmax := h.sdmax, fill := h.fill }
+    rw [h.items]
+    ext y; simp only [mem_fil, Finset.mem_insert]
+    constructor
+    · rintro ⟨a, b⟩; exact ⟨Or.inr a, b⟩
+    · rintro ⟨rfl | a, b⟩
+      · exact absurd b hg
+      · exact ⟨a, b⟩
+
+theorem foldl_insertHash_good (P : Params) : ∀ (xs : List Nat) (s : Sk) (U W : Finset ℕ), Good P s U W → (∀ x ∈ xs, x ∈ W) →
+    Good P (xs.foldl (insertHash P) s) (U ∪ xs.toFinset) W := by
+  intro xs
+  induction xs with
+  | nil => intro s U W h _; simpa using h
+  | cons x xs ih =>
+    intro s U W h hx
+    simp only [List.foldl_cons, List.toFinset_cons]
+    have := ih _ _ W (insertHash_good P s U W x h (hx x (by simp))) (fun y hy => hx y (by simp [hy]))
+    have e : U ∪ insert x xs.toFinset = insert x U ∪ xs.toFinset := by
+      ext y; simp only [Finset.mem_union, Finset.mem_insert]; tauto
+    rw [e]; exact this
+
+
+/-! ### Merge -/
+
+/-- well-formed parameters: 1 ≤ initial table degree ≤ maximal table degree (4 and 17 in the code) -/
+def PWF (P : Params) : Prop := 1 ≤ P.initDeg ∧ P.initDeg ≤ P.maxDeg
+
+/-- `Good`, or the zero value `ChUnique{}` that has seen nothing -/
+def Rep (P : Params) (s : Sk) (U W : Finset ℕ) : Prop :=
+  Good P s U W ∨ (s = nilSk ∧ U = ∅ ∧ ∀ x ∈ W, x < 2 ^ P.bits)
+
+theorem good_mono (P : Params) (s : Sk) (U W W' : Finset ℕ) (h : Good P s U W) (hs : W ⊆ W') (hb : ∀ x ∈ W', x < 2 ^ P.bits) :
+    Good P s U W' :=
+  { alloc := h.alloc, cnt := h.cnt, items := h.items, sub := fun _ hx => hs (h.sub hx), bound := hb,
+    minimal := fun j hj => Nat.lt_of_lt_of_le (h.minimal j hj) (fil_mono j hs),
+    sd1 := h.sd1, sdmax := h.sdmax, fill := h.fill }
+
+theorem rep_mono (P : Params) (s : Sk) (U W W' : Finset ℕ) (h : Rep P s U W) (hs : W ⊆ W') (hb : ∀ x ∈ W', x < 2 ^ P.bits) :
+    Rep P s U W' := by
+  rcases h with h | ⟨a, b, _⟩
+  · exact Or.inl (good_mono P s U W W' h hs hb)
+  · exact Or.inr ⟨a, b, hb⟩
+
+theorem rep_bound (P : Params) (s : Sk) (U W : Finset ℕ) (h : Rep P s U W) : ∀ x ∈ W, x < 2 ^ P.bits := by
+  rcases h with h | ⟨_, _, c⟩
+  · exact h.bound
+  · exact c
+
+theorem rep_sub (P : Params) (s : Sk) (U W : Finset ℕ) (h : Rep P s U W) : U ⊆ W := by
+  rcases h with h | ⟨_, b, _⟩
+  · exact h.sub
+  · rw [b]; exact Finset.empty_subset _
+
+theorem ensure_good (P : Params) (hP : PWF P) (s : Sk) (U W : Finset ℕ) (h : Rep P s U W) : Good P (ensure P s) U W := by
+  rcases h with h | ⟨a, b, c⟩
+  · simp only [ensure, h.alloc, if_true]; exact h
+  · subst a; subst b
+    simp only [ensure, nilSk]
+    exact { alloc := rfl, cnt := by simp [reset, abs, keys_nil], items := by simp [reset, abs, keys_nil, fil],
+            sub := Finset.empty_subset _, bound := c, minimal := by intro j hj; simp [reset] at hj,
+            sd1 := hP.1, sdmax := hP.2, fill := by simp [reset, maxFill] }
+
+theorem adopt_good (P : Params) (s : Sk) (U W : Finset ℕ) (k' : Nat) (h : Good P s U W)
+    (hm : ∀ j < k', limit P < (fil j W).card) : Good P (adopt P s k') U W ∧ k' ≤ (adopt P s k').k := by
+  unfold adopt
+  split
+  · rename_i hlt
+    obtain ⟨c, l, esd, ek⟩ := rehash_core P s U W k' h.toCore (by omega) hm
+    refine ⟨{ toCore := c, sd1 := by rw [esd]; exact h.sd1, sdmax := by rw [esd]; exact h.sdmax, fill := ?_ }, by rw [ek]⟩
+    have := h.fill; simp only [maxFill] at *; rw [esd]; omega
+  · exact ⟨h, by omega⟩
+
+theorem enlarge_good (P : Params) (s : Sk) (U V W : Finset ℕ) (h : Good P s U W) (hV : V ⊆ W)
+    (hbad : ∀ x ∈ V, x % 2 ^ s.k ≠ 0) : Good P s (U ∪ V) W := by
+  refine { toCore := ⟨h.alloc, h.cnt, ?_, Finset.union_subset h.sub hV, h.bound, h.minimal⟩, sd1 := h.sd1, sdmax := h.sdmax, fill := h.fill }
+  rw [h.items]
+  ext y; simp only [mem_fil, Finset.mem_union]
+  constructor
+  · rintro ⟨a, b⟩; exact ⟨Or.inl a, b⟩
+  · rintro ⟨a | a, b⟩
+    · exact ⟨a, b⟩
+    · exact absurd b (hbad y a)
+
+theorem has_iff (P : Params) (s : Sk) (x : Nat) (hx : x < 2 ^ P.bits) : has P s x = true ↔ x ∈ abs P s := by
+  simp only [has, abs]; exact mem_iff _ _ _ hx
+
+theorem mergeItem_chGood (P : Params) (rk : Nat) : mergeItem .chGood P rk = insertHash P := by
+  funext ch x; rfl
+
+theorem mergeZero_good (P : Params) (ch rhs : Sk) (U W : Finset ℕ) (h : Good P ch U W) (h0 : has P rhs 0 = true → 0 ∈ W) :
+    Good P (mergeZero P ch rhs) (if has P rhs 0 = true then insert 0 U else U) W := by
+  have hz : (0 : ℕ) < 2 ^ P.bits := Nat.two_pow_pos _
+  unfold mergeZero
+  split
+  · rename_i hc
+    simp only [Bool.and_eq_true, Bool.not_eq_true'] at hc
+    rw [if_pos hc.2]
+    have := insertHash_good P ch U W 0 h (h0 hc.2)
+    simpa [insertHash, good] using this
+  · rename_i hc
+    simp only [Bool.and_eq_true, Bool.not_eq_true', not_and] at hc
+    split
+    · rename_i hr
+      have hh : has P ch 0 = true := by
+        cases hx : has P ch 0
+        · exact absurd hr (by simpa using hc hx)
+        · rfl
+      have : 0 ∈ fil ch.k U := by rw [← h.items]; exact (has_iff P ch 0 hz).mp hh
+      rw [Finset.insert_eq_of_mem ((mem_fil _ _ _).mp this).1]
+      exact h
+    · exact h
+
+theorem mem_nonZero (P : Params) (s : Sk) (y : Nat) : y ∈ nonZero P s ↔ y ∈ abs P s ∧ y ≠ 0 := by
+  simp [nonZero, mem_toList, abs]
+
+/-- ChUnique.Merge (after the fix): the receiver ends up representing the union of what both sketches have seen -/
+theorem merge_good (P : Params) (hP : PWF P) (ch rhs : Sk) (U1 U2 W : Finset ℕ) (hc : Rep P ch U1 W) (hr : Rep P rhs U2 W) :
+    Rep P (Unique.merge .chGood P ch rhs) (U1 ∪ U2) W := by
+  unfold Unique.merge mergeWith
+  rcases hr with hr | ⟨a, b, _⟩
+  · have hz : (0 : ℕ) < 2 ^ P.bits := Nat.two_pow_pos _
+    simp only [hr.alloc, Bool.not_true, Bool.false_eq_true, if_false]
+    left
+    have c0 := ensure_good P hP ch U1 W hc
+    obtain ⟨c1, hk⟩ := adopt_good P _ U1 W rhs.k c0 hr.minimal
+    let V := U2.filter (fun y => y % 2 ^ rhs.k ≠ 0)
+    have hV : V ⊆ W := fun x hx => hr.sub (Finset.mem_filter.mp hx).1
+    have hbad : ∀ x ∈ V, x % 2 ^ (adopt P (ensure P ch) rhs.k).k ≠ 0 := by
+      intro x hx hmod
+      have hx2 := (Finset.mem_filter.mp hx).2
+      apply hx2
+      have hd : 2 ^ rhs.k ∣ 2 ^ (adopt P (ensure P ch) rhs.k).k := Nat.pow_dvd_pow 2 hk
+      have h2 := Nat.mod_mod_of_dvd x hd
+      rw [hmod] at h2; simpa using h2.symm
+    have c2 := enlarge_good P _ U1 V W c1 hV hbad
+    have h0 : has P rhs 0 = true → 0 ∈ W := by
+      intro hh
+      have : 0 ∈ fil rhs.k U2 := by rw [← hr.items]; exact (has_iff P rhs 0 hz).mp hh
+      exact hr.sub ((mem_fil _ _ _).mp this).1
+    have c3 := mergeZero_good P _ rhs (U1 ∪ V) W c2 h0
+    have hin : ∀ x ∈ nonZero P rhs, x ∈ W := by
+      intro x hx
+      have := ((mem_nonZero P rhs x).mp hx).1
+      rw [hr.items] at this
+      exact hr.sub ((mem_fil _ _ _).mp this).1
+    have c4 := foldl_insertHash_good P (nonZero P rhs) _ _ W c3 hin
+    rw [mergeItem_chGood]
+    have e : (if has P rhs 0 = true then insert 0 (U1 ∪ V) else U1 ∪ V) ∪ (nonZero P rhs).toFinset = U1 ∪ U2 := by
+      ext y
+      have hnz := mem_nonZero P rhs y
+      have hit : y ∈ abs P rhs ↔ y ∈ U2 ∧ y % 2 ^ rhs.k = 0 := by rw [hr.items, mem_fil]
+      have h00 : has P rhs 0 = true ↔ (0 ∈ U2 ∧ 0 % 2 ^ rhs.k = 0) := by
+        rw [has_iff P rhs 0 hz, hr.items, mem_fil]
+      by_cases hy0 : y = 0
+      · subst hy0
+        by_cases hh : has P rhs 0 = true
+        · have := h00.mp hh
+          simp only [hh, if_true, Finset.mem_union, Finset.mem_insert, List.mem_toFinset, true_or, or_true, this.1]
+        · have hn : ¬ (0 ∈ U2 ∧ 0 % 2 ^ rhs.k = 0) := fun c => hh (h00.mpr c)
+          simp only [hh, Finset.mem_union, List.mem_toFinset, hnz, hit, V]
+          simp at hn ⊢
+          tauto
+      · have hsplit : y ∈ (if has P rhs 0 = true then insert 0 (U1 ∪ V) else U1 ∪ V) ↔ y ∈ U1 ∪ V := by
+          split
+          · simp [hy0]
+          · rfl
+        rw [Finset.mem_union, hsplit, List.mem_toFinset, hnz, hit]
+        simp only [Finset.mem_union, V, Finset.mem_filter]
+        by_cases hm : y % 2 ^ rhs.k = 0 <;> simp [hm, hy0]
+    rw [← e]; exact c4
+  · subst a; subst b
+    simp only [nilSk, Bool.not_false, if_true, Finset.union_empty]
+    exact hc
+
+
+/-! ### the wire path: MarshallAppend → MergeRead / UmMarshall (after the fix) -/
+
+theorem keys_foldl_insert (d : Nat) : ∀ (xs : List Nat) (t : Trie), (∀ x ∈ xs, x < 2 ^ d) →
+    keys d (xs.foldl (fun t x => t.insert d x) t) = keys d t ∪ xs.toFinset := by
+  intro xs
+  induction xs with
+  | nil => intro t _; simp
+  | cons x xs ih =>
+    intro t hx
+    simp only [List.foldl_cons, List.toFinset_cons]
+    rw [ih _ (fun y hy => hx y (by simp [hy])), keys_insert _ _ _ (hx x (by simp))]
+    ext y; simp only [Finset.mem_union, Finset.mem_insert]; tauto
+
+theorem marshal_xs (P : Params) (s : Sk) (hs : s.alloc = true) :
+    (marshal P s).k = s.k ∧ (marshal P s).ic = s.cnt ∧ (marshal P s).xs.toFinset = abs P s := by
+  have hz : (0 : ℕ) < 2 ^ P.bits := Nat.two_pow_pos _
+  simp only [marshal, hs, if_true, true_and]
+  ext y
+  simp only [List.toFinset_append, Finset.mem_union, List.mem_toFinset, mem_nonZero]
+  by_cases hy : y = 0
+  · subst hy
+    by_cases hh : has P s 0 = true
+    · simp [hh, (has_iff P s 0 hz).mp hh]
+    · have : 0 ∉ abs P s := fun c => hh ((has_iff P s 0 hz).mpr c)
+      simp [hh, this]
+  · split <;> simp [hy]
+
+theorem sdFor_clamp (P : Params) (hP : PWF P) (ic : Nat) (hic : ic ≤ limit P) :
+    1 ≤ sdFor .clamp P ic ∧ sdFor .clamp P ic ≤ P.maxDeg ∧ ic ≤ 2 ^ (sdFor .clamp P ic - 1) := by
+  obtain ⟨h1, h2⟩ := hP
+  unfold sdFor
+  split
+  · rename_i hgt
+    simp only
+    refine ⟨by omega, by omega, ?_⟩
+    by_cases hc : P.maxDeg ≤ max P.initDeg (Nat.log2 ic + 2)
+    · rw [Nat.min_eq_left hc]; exact hic
+    · rw [Nat.min_eq_right (by omega)]
+      have hl : ic < 2 ^ (Nat.log2 ic + 1) := Nat.lt_log2_self
+      have : 2 ^ (Nat.log2 ic + 1) ≤ 2 ^ (max P.initDeg (Nat.log2 ic + 2) - 1) := Nat.pow_le_pow_right (by omega) (by omega)
+      omega
+  · rename_i hle
+    refine ⟨h1, h2, ?_⟩
+    have : 1 ≤ 2 ^ (P.initDeg - 1) := Nat.one_le_two_pow
+    omega
+
+theorem readResize_good (P : Params) (hP : PWF P) (s : Sk) (U W : Finset ℕ) (ic : Nat) (h : Good P s U W) (hic : ic ≤ limit P) :
+    Good P (readResize .clamp P s ic) U W := by
+  unfold readResize
+  split
+  · rename_i hlt
+    obtain ⟨a, b, _⟩ := sdFor_clamp P hP ic hic
+    refine { toCore := ⟨h.alloc, h.cnt, h.items, h.sub, h.bound, h.minimal⟩, sd1 := a, sdmax := b, fill := ?_ }
+    have hl : ic < 2 ^ (Nat.log2 ic + 1) := Nat.lt_log2_self
+    have hsd : s.sd < Nat.log2 ic + 1 := (Nat.pow_lt_pow_iff_right (by omega : 1 < 2)).mp (by omega)
+    have hge : s.sd ≤ sdFor .clamp P ic := by
+      have h1 : 1 < ic := by have : 1 ≤ 2 ^ s.sd := Nat.one_le_two_pow; omega
+      have := h.sdmax
+      simp only [sdFor, h1, if_true]; omega
+    have := h.fill
+    simp only [maxFill] at *
+    have : 2 ^ (s.sd - 1) ≤ 2 ^ (sdFor .clamp P ic - 1) := Nat.pow_le_pow_right (by omega) (by omega)
+    omega
+  · exact h
+
+/-- MergeRead of a marshalled sketch (after the fix): same result as Merge — the union of what both have seen -/
+theorem mergeRead_good (P : Params) (hP : PWF P) (ch rhs : Sk) (U1 U2 W : Finset ℕ) (hc : Rep P ch U1 W) (hr : Good P rhs U2 W) :
+    Good P (mergeRead .adopt .clamp P ch (marshal P rhs)) (U1 ∪ U2) W := by
+  obtain ⟨mk, mic, mxs⟩ := marshal_xs P rhs hr.alloc
+  have hlim : rhs.cnt ≤ limit P := by
+    have hpow : 2 ^ (rhs.sd - 1) ≤ 2 ^ (P.maxDeg - 1) := Nat.pow_le_pow_right (by omega) (by have := hr.sdmax; omega)
+    have := hr.fill; simp only [maxFill, limit] at *; omega
+  have hxsW : ∀ x ∈ (marshal P rhs).xs, x ∈ W := by
+    intro x hx
+    have : x ∈ abs P rhs := by rw [← mxs]; exact List.mem_toFinset.mpr hx
+    rw [hr.items] at this
+    exact hr.sub ((mem_fil _ _ _).mp this).1
+  unfold mergeRead
+  rcases hc with hc | ⟨a, b, _⟩
+  · simp only [hc.alloc, Bool.not_true, Bool.false_eq_true, if_false]
+    have e1 : readAdopt .adopt P ch (marshal P rhs).k = adopt P ch rhs.k := by rw [mk]; rfl
+    rw [e1, mic]
+    obtain ⟨c1, hk⟩ := adopt_good P ch U1 W rhs.k hc hr.minimal
+    let V := U2.filter (fun y => y % 2 ^ rhs.k ≠ 0)
+    have hV : V ⊆ W := fun x hx => hr.sub (Finset.mem_filter.mp hx).1
+    have hbad : ∀ x ∈ V, x % 2 ^ (adopt P ch rhs.k).k ≠ 0 := by
+      intro x hx hmod
+      apply (Finset.mem_filter.mp hx).2
+      have hd : 2 ^ rhs.k ∣ 2 ^ (adopt P ch rhs.k).k := Nat.pow_dvd_pow 2 hk
+      have h2 := Nat.mod_mod_of_dvd x hd
+      rw [hmod] at h2; simpa using h2.symm
+    have c2 := enlarge_good P _ U1 V W c1 hV hbad
+    have c3 := readResize_good P hP _ _ W rhs.cnt c2 hlim
+    have c4 := foldl_insertHash_good P (marshal P rhs).xs _ _ W c3 hxsW
+    have e : U1 ∪ V ∪ (marshal P rhs).xs.toFinset = U1 ∪ U2 := by
+      rw [mxs, hr.items]
+      ext y
+      simp only [Finset.mem_union, V, Finset.mem_filter, mem_fil]
+      by_cases hm : y % 2 ^ rhs.k = 0 <;> simp [hm]
+    have e2 : (readResize .clamp P (adopt P ch rhs.k) rhs.cnt).k = (adopt P ch rhs.k).k := by
+      unfold readResize; split <;> rfl
+    rw [← e]; exact c4
+  · subst a; subst b
+    simp only [nilSk, Bool.not_false, if_true, Finset.empty_union]
+    obtain ⟨s1, s2, s3⟩ := sdFor_clamp P hP (marshal P rhs).ic (by rw [mic]; exact hlim)
+    have habs : abs P (unmarshal .clamp P (marshal P rhs)) = abs P rhs := by
+      simp only [unmarshal, abs]
+      rw [keys_foldl_insert _ _ _ (fun x hx => hr.bound x (hxsW x hx)), keys_nil, Finset.empty_union, mxs]; rfl
+    exact { alloc := rfl, cnt := by rw [habs]; simp only [unmarshal]; rw [mic]; exact hr.cnt,
+            items := by rw [habs]; simp only [unmarshal]; rw [mk]; exact hr.items,
+            sub := hr.sub, bound := hr.bound, minimal := by simp only [unmarshal]; rw [mk]; exact hr.minimal,
+            sd1 := s1, sdmax := s2, fill := by simp only [unmarshal, maxFill]; exact s3 }
+
+
+theorem mergeRead_nil (P : Params) (hP : PWF P) (ch : Sk) (U W : Finset ℕ) (hc : Rep P ch U W) :
+    Good P (mergeRead .adopt .clamp P ch (marshal P nilSk)) U W := by
+  rcases hc with hc | ⟨a, b, c⟩
+  · have : mergeRead .adopt .clamp P ch (marshal P nilSk) = ch := by
+      simp [mergeRead, marshal, nilSk, hc.alloc, readAdopt, readResize]
+    rw [this]; exact hc
+  · subst a
+    have : mergeRead .adopt .clamp P nilSk (marshal P nilSk) = reset P := by
+      simp [mergeRead, marshal, nilSk, unmarshal, sdFor, reset]
+    rw [this]
+    have := ensure_good P hP nilSk U W (Or.inr ⟨rfl, b, c⟩)
+    simpa [ensure, nilSk] using this
+
+/-- MergeRead of the wire image of any represented sketch (nil included) -/
+theorem mergeRead_rep (P : Params) (hP : PWF P) (ch rhs : Sk) (U1 U2 W : Finset ℕ) (hc : Rep P ch U1 W) (hr : Rep P rhs U2 W) :
+    Rep P (mergeRead .adopt .clamp P ch (marshal P rhs)) (U1 ∪ U2) W := by
+  rcases hr with hr | ⟨a, b, _⟩
+  · exact Or.inl (mergeRead_good P hP ch rhs U1 U2 W hc hr)
+  · subst a; subst b
+    rw [Finset.union_empty]
+    exact Or.inl (mergeRead_nil P hP ch U1 W hc)
+
+/-! ### programs -/
+
+/-- any interleaving of inserts and merges: a binary tree whose leaves are insert streams -/
+inductive Prog where
+  | empty
+  | ins (p : Prog) (x : Nat)
+  | merge (a b : Prog)
+  | mread (a b : Prog)     -- a.MergeRead(b.MarshallAppend()): the agent → aggregator path
+
+def run (P : Params) : Prog → Sk
+  | .empty => nilSk
+  | .ins p x => insertHash P (ensure P (run P p)) x
+  | .merge a b => Unique.merge .chGood P (run P a) (run P b)
+  | .mread a b => mergeRead .adopt .clamp P (run P a) (marshal P (run P b))
+
+def hashes : Prog → Finset ℕ
+  | .empty => ∅
+  | .ins p x => insert x (hashes p)
+  | .merge a b => hashes a ∪ hashes b
+  | .mread a b => hashes a ∪ hashes b
+
+/-- C04, unique values: whatever the order and grouping of inserts and merges, the sketch represents exactly the set of
+    inserted hashes `U`: it stores the values of `U` divisible by 2^skipDegree, and skipDegree is minimal. -/
+theorem canonical_sketch (P : Params) (hP : PWF P) (p : Prog) (hb : ∀ x ∈ hashes p, x < 2 ^ P.bits) :
+    Rep P (run P p) (hashes p) (hashes p) := by
+  induction p with
+  | empty => exact Or.inr ⟨rfl, rfl, hb⟩
+  | ins p x ih =>
+    simp only [hashes] at hb ⊢
+    have ih' := ih (fun y hy => hb y (Finset.mem_insert_of_mem hy))
+    have r := rep_mono P _ _ _ (insert x (hashes p)) ih' (Finset.subset_insert _ _) hb
+    exact Or.inl (insertHash_good P _ _ _ x (ensure_good P hP _ _ _ r) (Finset.mem_insert_self _ _))
+  | merge a b iha ihb =>
+    simp only [hashes] at hb ⊢
+    have ra := rep_mono P _ _ _ (hashes a ∪ hashes b) (iha (fun y hy => hb y (Finset.mem_union_left _ hy))) Finset.subset_union_left hb
+    have rb := rep_mono P _ _ _ (hashes a ∪ hashes b) (ihb (fun y hy => hb y (Finset.mem_union_right _ hy))) Finset.subset_union_right hb
+    exact merge_good P hP _ _ _ _ _ ra rb
+  | mread a b iha ihb =>
+    simp only [hashes] at hb ⊢
+    have ra := rep_mono P _ _ _ (hashes a ∪ hashes b) (iha (fun y hy => hb y (Finset.mem_union_left _ hy))) Finset.subset_union_left hb
+    have rb := rep_mono P _ _ _ (hashes a ∪ hashes b) (ihb (fun y hy => hb y (Finset.mem_union_right _ hy))) Finset.subset_union_right hb
+    exact mergeRead_rep P hP _ _ _ _ _ ra rb
+
+/-- the canonical state is unique: skipDegree is THE least degree at which the set fits, itemsCount the number of survivors -/
+theorem good_canonical (P : Params) (s : Sk) (U : Finset ℕ) (h : Good P s U U) :
+    (fil s.k U).card ≤ limit P ∧ (∀ j < s.k, limit P < (fil j U).card) ∧ s.cnt = (fil s.k U).card := by
+  have hpow : 2 ^ (s.sd - 1) ≤ 2 ^ (P.maxDeg - 1) := Nat.pow_le_pow_right (by omega) (by have := h.sdmax; omega)
+  refine ⟨?_, h.minimal, by rw [h.cnt, h.items]⟩
+  rw [← h.items, ← h.cnt]
+  have := h.fill
+  simp only [maxFill, limit] at *
+  omega
+
+theorem rep_unique (P : Params) (s s' : Sk) (U : Finset ℕ) (h : Rep P s U U) (h' : Rep P s' U U) :
+    s.k = s'.k ∧ s.cnt = s'.cnt := by
+  have gg : ∀ (a b : Sk), Good P a U U → Good P b U U → a.k ≤ b.k := by
+    intro a b ha hb'
+    by_contra hlt
+    have h1 := (good_canonical P a U ha).2.1 b.k (by omega)
+    have h2 := (good_canonical P b U hb').1
+    omega
+  have gn : ∀ (a : Sk), Good P a ∅ ∅ → a.k = 0 ∧ a.cnt = 0 := by
+    intro a ha
+    have hc := good_canonical P a ∅ ha
+    refine ⟨?_, by rw [hc.2.2]; simp [fil]⟩
+    by_contra hk
+    have := hc.2.1 0 (by omega)
+    simp [fil] at this
+  rcases h with h | ⟨a, b, _⟩ <;> rcases h' with h' | ⟨a', b', _⟩
+  · have hk : s.k = s'.k := Nat.le_antisymm (gg s s' h h') (gg s' s h' h)
+    refine ⟨hk, ?_⟩
+    rw [(good_canonical P s U h).2.2, (good_canonical P s' U h').2.2, hk]
+  · subst a'; subst b'
+    have := gn s h
+    simp [nilSk, this.1, this.2]
+  · subst a; subst b
+    have := gn s' h'
+    simp [nilSk, this.1, this.2]
+  · subst a; subst a'; exact ⟨rfl, rfl⟩
+
+/-- C04: "… yields the same … unique-value estimate": two programs (any order, any grouping) that insert the same set of
+    hashes end with the same skipDegree and itemsCount, hence the same Size() (a function of the two). -/
+theorem estimate_order_independent (P : Params) (hP : PWF P) (p q : Prog) (h : hashes p = hashes q)
+    (hb : ∀ x ∈ hashes p, x < 2 ^ P.bits) :
+    (run P p).k = (run P q).k ∧ (run P p).cnt = (run P q).cnt ∧ sizeAsIs (run P p) = sizeAsIs (run P q) := by
+  have r1 := canonical_sketch P hP p hb
+  have r2 := canonical_sketch P hP q (by rw [← h]; exact hb)
+  rw [← h] at r2
+  obtain ⟨a, b⟩ := rep_unique P _ _ _ r1 r2
+  exact ⟨a, b, by simp [sizeAsIs, a, b]⟩
+
+theorem real_pwf : PWF Unique.real := ⟨by decide, by decide⟩
+/-! ### the code before the fix: `decide` witnesses on a toy instance (4-bit hashes, limit 4) -/
+
+def toy : Params := { bits := 4, maxDeg := 3, initDeg := 1 }
+def ofList (P : Params) (xs : List Nat) : Sk := xs.foldl (insertHash P) (reset P)
+
+/-- a sketch that was thinned once (skipDegree 1, holds 2,4,6) and a small one (holds 1) -/
+def tA : Sk := ofList toy [1, 2, 3, 4, 6]
+def tB : Sk := ofList toy [1]
+
+example : tA.k = 1 ∧ tA.cnt = 3 ∧ tB.k = 0 ∧ tB.cnt = 1 := by decide
+
+/-- F2 — ChUnique.Merge filtered incoming values with `rhs.good`: merging the small sketch INTO the thinned one keeps the
+    odd value 1 (estimate 8), the other order gives 6. After the fix both orders give 6. -/
+example : sizeAsIs (Unique.merge .rhsGood toy tA tB) = 8 ∧ sizeAsIs (Unique.merge .rhsGood toy tB tA) = 6 := by decide
+example : sizeAsIs (Unique.merge .chGood toy tA tB) = 6 ∧ sizeAsIs (Unique.merge .chGood toy tB tA) = 6 := by decide
+
+/-- F3 — MergeRead did not adopt the incoming skipDegree: small ⇐ thinned keeps skipDegree 0 (estimate 4), thinned ⇐ small gives 6 -/
+example : sizeAsIs (mergeRead .stale .clamp toy tB (marshal toy tA)) = 4 ∧
+          sizeAsIs (mergeRead .stale .clamp toy tA (marshal toy tB)) = 6 := by decide
+example : sizeAsIs (mergeRead .adopt .clamp toy tB (marshal toy tA)) = 6 ∧
+          sizeAsIs (mergeRead .adopt .clamp toy tA (marshal toy tB)) = 6 := by decide
+
+/-- a sketch holding exactly `limit` values -/
+def tF : Sk := ofList toy [1, 2, 3, 4]
+example : tF.cnt = limit toy ∧ tF.k = 0 := by decide
+
+/-- F12 — the readers sized the table with log2(ic)+2 unclamped: for exactly `limit` values maxFill is 2·limit, so the next
+    values are stored without thinning and itemsCount exceeds the limit (such a sketch cannot even be read back).
+    With the clamp the same program thins. -/
+example : limit toy < (mergeRead .adopt .exact toy (mergeRead .adopt .exact toy nilSk (marshal toy tF)) (marshal toy (ofList toy [5]))).cnt := by decide
+example : (mergeRead .adopt .clamp toy (mergeRead .adopt .clamp toy nilSk (marshal toy tF)) (marshal toy (ofList toy [5]))).cnt ≤ limit toy := by decide
+
+/-- non-vacuity of `canonical_sketch` / `estimate_order_independent`: two different programs over the same 6 hashes, with thinning -/
+def pg1 : Prog := .merge (.ins (.ins (.ins .empty 1) 2) 3) (.ins (.ins (.ins .empty 4) 6) 8)
+def pg2 : Prog := .ins (.mread (.ins (.ins .empty 8) 6) (.merge (.ins .empty 3) (.ins (.ins .empty 2) 1))) 4
+example : hashes pg1 = hashes pg2 ∧ (∀ x ∈ hashes pg1, x < 2 ^ toy.bits) ∧ PWF toy ∧ (run toy pg1).k = 1 ∧ (run toy pg1).cnt = 4 ∧
+    (run toy pg2).k = 1 ∧ (run toy pg2).cnt = 4 := by
+  refine ⟨by decide, by decide, ⟨by decide, by decide⟩, by decide, by decide, by decide, by decide⟩
+
+/-- the tsValues.merge sketch path (fresh copy on the first merge, in place afterwards) is two/one `Merge` calls, so API rows
+    inherit `merge_good`: the merged row's sketch represents the union of what both rows' sketches have seen -/
+theorem tsUnique_good (P : Params) (hP : PWF P) (v r : Ts) (U1 U2 W : Finset ℕ) (hv : Rep P v.u U1 W) (hr : Rep P r.u U2 W) :
+    Rep P (tsUnique .chGood P v r) (U1 ∪ U2) W := by
+  unfold tsUnique
+  split
+  · have h0 : Rep P nilSk ∅ W := Or.inr ⟨rfl, rfl, rep_bound P _ _ _ hv⟩
+    have h1 := merge_good P hP nilSk v.u ∅ U1 W h0 hv
+    rw [Finset.empty_union] at h1
+    exact merge_good P hP _ r.u U1 U2 W h1 hr
+  · exact merge_good P hP v.u r.u U1 U2 W hv hr
+
 end SH.C04
